@@ -464,12 +464,14 @@ Proof.
     destruct op; try exact (generic_compare_ok o d _ _ r).
     destruct r as [ g l' | l1 op' r1 | b | f' m' | f' | x | s | z | k e | cols rows | e | f' e | | s f' cst ];
       try exact (generic_compare_ok o d _ _ _).
-    destruct m'; try exact (generic_compare_ok o d _ _ _).
-    cbn [solve_compare pure_doc bind].
-    destruct (d f) as [ vx | ]; [ | eexists; reflexivity ].
-    destruct (value_to_string o vx) as [ xs | ]; [ | eexists; reflexivity ].
-    destruct (d f') as [ vy | ]; [ | eexists; reflexivity ].
-    destruct (value_to_string o vy) as [ ys | ]; eexists; reflexivity.
+    + destruct m'; try exact (generic_compare_ok o d _ _ _).
+      cbn [solve_compare pure_doc bind].
+      destruct (d f) as [ vx | ]; [ | eexists; reflexivity ].
+      destruct (value_to_string o vx) as [ xs | ]; [ | eexists; reflexivity ].
+      destruct (d f') as [ vy | ]; [ | eexists; reflexivity ].
+      destruct (value_to_string o vy) as [ ys | ]; eexists; reflexivity.
+    + (* str(f) == null, fix D27 *)
+      cbn [solve_compare pure_doc bind]. destruct (d f); eexists; reflexivity.
   - (* EField *)
     destruct op; try exact (generic_compare_ok o d _ _ r).
     destruct r as [ g l' | l1 op' r1 | b | f' m' | f' | x | s | z | k e | cols rows | e | f' e | | s f' cst ];
